@@ -547,6 +547,8 @@ class DiHypergraph:
             raise XGIError("Directed edge must be a list or tuple!")
         if None in tail or None in head:
             raise XGIError("None cannot be a node")
+        for node in tail + head:
+            hash(node)  # an unhashable member raises before anything is stored
 
         uid = next(self._edge_uid) if idx is None else idx
 
